@@ -74,6 +74,16 @@ func goxScenarios() []goxScenario {
 		{Name: "subquery-in", Files: files, SQL: "SELECT a FROM t WHERE g IN (SELECT g FROM u)", CPU: 3},
 		{Name: "error-at-one-record", Files: files, SQL: "SELECT a, 10 / (a - 4) FROM t", CPU: 3},
 		{Name: "inner-join", Files: jf, SQL: "SELECT tl.a, ur.a FROM tl JOIN ur ON tl.g = ur.g", CPU: 2},
+		{Name: "inner-join-3-workers-middle-chunk-unmatched", Files: map[string]string{
+			"tl.csv": csvTable("a,g", 30, func(i int) string {
+				g := "none"
+				if i < 10 || i >= 20 {
+					g = fmt.Sprintf("k%d", i%3)
+				}
+				return fmt.Sprintf("%d,%s", i+1, g)
+			}),
+			"ur.csv": csvTable("a,g", 10, func(i int) string { return fmt.Sprintf("%d,k%d", i+1, i%3) })},
+			SQL: "SELECT tl.a, ur.a FROM tl JOIN ur ON tl.g = ur.g", CPU: 3},
 		{Name: "left-join", Files: jf, SQL: "SELECT tl.a, ur.a FROM tl LEFT JOIN ur ON tl.g = ur.g", CPU: 2},
 		{Name: "full-join", Files: jf, SQL: "SELECT tl.a, ur.a FROM tl FULL JOIN ur ON tl.g = ur.g", CPU: 2},
 		{Name: "cross-join", Files: jf, SQL: "SELECT tl.a, ur.a FROM tl CROSS JOIN ur WHERE tl.a + ur.a = 11", CPU: 2, Thorough: true},
